@@ -119,8 +119,9 @@ def check(case, ctx):
             text = buf.getvalue()
         elif ser == 'dump_file_utf16':
             p = os.path.join(d, 'dump16.txt')
-            penman.dump(list(originals), p, model=model, indent=indent, encoding='utf-16')
-            back = penman.load(p, model=model, encoding='utf-16')
+            import pathlib
+            penman.dump(list(originals), pathlib.Path(p), model=model, indent=indent, encoding='utf-16')      # a Path is a file name too
+            back = penman.load(pathlib.Path(p), model=model, encoding='utf-16')
             if [_sig(g) for g in back] != want:
                 ctx.fail('dump(file name, encoding=utf-16) then load(file name, encoding=utf-16) does not return the graphs', expected=want, observed=[_sig(g) for g in back])
                 return
